@@ -1,10 +1,10 @@
 #!/bin/bash
 # usage: tools/adopt_seed.sh C12 [tier]  — take /tmp/seed_C12_out, confirm demo (PASS on /repo, FAIL with patch), run the check on the patched tree
 set -u
-P="$1"; TIER="${2:-quick}"
+P="$1"; TIER="${2:-quick}"; ROUND="${3:-}"
 HERE="$(cd "$(dirname "$0")/.." && pwd)"
-SRC=/tmp/seed_${P}_out
-D="$HERE/seeded/$P"
+SRC=/tmp/seed${ROUND}_${P}_out
+D="$HERE/seeded/$P${ROUND:+_$ROUND}"
 mkdir -p "$D"; cp "$SRC/patch.diff" "$SRC/demo.py" "$D/"; [ -f "$SRC/README.md" ] && cp "$SRC/README.md" "$D/README.md"
 WT="$(mktemp -d /tmp/lv_adopt_XXXXXX)"; rmdir "$WT"
 git -C /repo worktree add -q --detach "$WT" HEAD || exit 2
